@@ -120,18 +120,19 @@ async fn run_tcp_system_inner(plan: &Plan, atomic_handshake: bool, via_port: u16
 
     let obs: Vec<Shared<FlowObs>> = plan.flows.iter().map(|_| Arc::new(Mutex::new(FlowObs::default()))).collect();
     let mut tasks = Vec::new();
-    for (ix, f) in plan.flows.iter().enumerate() {
+    let skipped = |f: &TcpFlow| f.target_fault.as_deref() == Some("skip");
+    for (ix, f) in plan.flows.iter().enumerate().filter(|(_, f)| !skipped(f)) {
         tasks.push(tokio::spawn(run_target(ix, f.clone(), obs[ix].clone())));
     }
     tokio::task::yield_now().await;
-    for (ix, f) in plan.flows.iter().enumerate() {
+    for (ix, f) in plan.flows.iter().enumerate().filter(|(_, f)| !skipped(f)) {
         tasks.push(tokio::spawn(run_app(ix, f.clone(), obs[ix].clone(), atomic_handshake)));
     }
     let mut budget_ms = 150_000 + plan.flows.iter().map(script_ms).max().unwrap_or(0);
     let mut waited = 0u64;
     let mut last_ev = 0u64;
     loop {
-        let done = plan.flows.iter().enumerate().all(|(ix, f)| flow_complete(f, ix, &obs[ix].lock().unwrap()));
+        let done = plan.flows.iter().enumerate().all(|(ix, f)| skipped(f) || flow_complete(f, ix, &obs[ix].lock().unwrap()));
         if done {
             break;
         }
@@ -410,4 +411,144 @@ pub fn execute_c01(plan: &Plan) -> Outcome {
         extra_evaluations: 0,
         extra_cases: Vec::new(),
     }
+}
+
+// ---------------------------------------------------------------- C09 (task level)
+
+#[derive(Debug, PartialEq, Eq, Clone)]
+pub struct FlowSummary {
+    pub handshake_ok: bool,
+    pub dialled: usize,
+    pub up_bytes: usize,
+    pub up_intact: bool,
+    pub down_bytes: usize,
+    pub down_intact: bool,
+    pub app_end: Option<String>,
+    pub target_end: Option<String>,
+}
+
+pub fn summarise(plan: &Plan, run: &TcpRun, w: &world::World) -> Vec<FlowSummary> {
+    plan.flows
+        .iter()
+        .enumerate()
+        .map(|(ix, f)| {
+            let o = &run.flows[ix];
+            let taddr = target_addr(f);
+            let end = |e: &Option<End>| e.as_ref().map(|e| match e { End::Eof => "eof".to_owned(), End::Err(k) => k.clone() });
+            FlowSummary {
+                handshake_ok: o.hs_err.is_none(),
+                dialled: w.connects.iter().filter(|c| c.node == rt::NODE_SERVER && c.dst == taddr).count(),
+                up_bytes: o.target.recv.len(),
+                up_intact: first_mismatch(&o.target.recv, &expected_up(f, ix)).is_none(),
+                down_bytes: o.app.recv.len(),
+                down_intact: first_mismatch(&o.app.recv, &expected_down(f, ix)).is_none(),
+                app_end: end(&o.app.end),
+                target_end: end(&o.target.end),
+            }
+        })
+        .collect()
+}
+
+/// C09: k flows at once, then every flow alone; a flow's observable result must not depend on its neighbours.
+pub fn gen_c09(seed: u64, thorough: bool) -> Plan {
+    let mut g = Gen::new(seed, 9);
+    let cells = all_proto_ciphers();
+    let (proto, cipher) = cells[(seed as usize) % cells.len()];
+    let transport = TCP_TRANSPORTS[((seed as usize) / cells.len()) % TCP_TRANSPORTS.len()];
+    let n_users = if proto == Proto::Shadowsocks && supports_eih(cipher) && g.chance(50) { 2 } else { 0 };
+    let config = gen_config(&mut g, proto, cipher, transport, n_users);
+    let knobs = KnobsPlan::generate(&mut g).for_transport(transport);
+    let n_flows = if g.chance(10) { g.range(9, if thorough { 64 } else { 24 }) } else { g.range(2, 8) } as usize;
+    let max_bytes = if knobs.sndbuf <= 64 || knobs.read_style == 1 { 2000 } else { 12_000 };
+    let mut flows = Vec::new();
+    for ix in 0..n_flows {
+        let hs = *g.pick(&ALL_HS);
+        // endings whose outcome does not hinge on a race with the opposite direction
+        let ending = *g.pick(&[Ending::None, Ending::AppAfterAll, Ending::TargetAfterAll]);
+        let mut f = gen_flow(&mut g, ix % 200, hs, ending, max_bytes);
+        f.target_ip = [127, 0, 1 + (ix / 200) as u8 + (ix % 200) as u8 % 50, 1 + (ix as u8 % 250)];
+        f.target_port = 10_000 + ix as u16;
+        f.start_ms = *g.pick(&[0, 0, 0, 1, 3]);
+        flows.push(f);
+    }
+    Plan { property: "C09".into(), scenario: "independence".into(), seed, net_seed: g.next(), config, knobs, flows, extra: serde_json::Value::Null }
+}
+
+pub fn execute_c09(plan: &Plan) -> Outcome {
+    let cell = plan.config.label();
+    let all = rt::run_sim(plan.seed, plan.net_seed, plan.knobs.to_knobs(), || run_tcp_system(plan, true));
+    let together = summarise(plan, &all.result, &all.world);
+    let mut v = Vec::new();
+    let mut stats = crate::report::world_stats(&all.world);
+    let mut panics = all.panics.clone();
+    let (mut sim_ns, mut polls, mut ev_count) = (all.sim_ns, all.polls, all.world.ev_count);
+    let mut extra_cases = Vec::new();
+    if let Some(e) = &all.result.startup_err {
+        v.push(Violation::new("C09", format!("C09/startup/{cell}"), e.clone()));
+    } else {
+        for ix in 0..plan.flows.len() {
+            // the same flow alone, at the same place in the plan (its index decides payload and target address)
+            let mut single = plan.clone();
+            for (j, f) in single.flows.iter_mut().enumerate() {
+                if j != ix {
+                    // keep the slot (indices stay), but the flow never starts
+                    f.start_ms = u64::MAX / 4;
+                }
+            }
+            let alone_run = rt::run_sim(plan.seed, plan.net_seed, plan.knobs.to_knobs(), || run_single(&single, ix));
+            let alone = summarise(&single, &alone_run.result, &alone_run.world)[ix].clone();
+            sim_ns += alone_run.sim_ns;
+            polls += alone_run.polls;
+            ev_count += alone_run.world.ev_count;
+            for (k, val) in crate::report::world_stats(&alone_run.world) {
+                *stats.entry(k).or_insert(0) += val;
+            }
+            panics.extend(alone_run.panics.clone());
+            extra_cases.push(alone_run.poll_hash ^ plan_shape_hash(plan) ^ ix as u64);
+            if alone != together[ix] {
+                let f = &plan.flows[ix];
+                v.push(Violation::new(
+                    "C09",
+                    format!("C09/depends-on-neighbours/{cell}/{}/{}", hs_name(f.hs), ending_name(f.ending)),
+                    format!("flow {ix} of {}: alone {:?}, together with the others {:?}", plan.flows.len(), alone, together[ix]),
+                ));
+            }
+        }
+    }
+    for p in &panics {
+        v.push(Violation::new("C09", format!("C09/panic/{cell}/{}", p.frame), format!("panic in node {}: {} at {}", p.node, p.message, p.location)));
+    }
+    v.dedup_by(|a, b| a.signature == b.signature);
+    let relayed: usize = all.result.flows.iter().map(|f| f.app.recv.len() + f.target.recv.len()).sum();
+    let mut probes = BTreeMap::new();
+    probes.insert("flows_compared".to_owned(), plan.flows.len() as u64);
+    probes.insert("concurrent_flows_max".to_owned(), 0);
+    probes.insert(format!("batches_of_{}", if plan.flows.len() > 8 { "9_or_more" } else { "2_to_8" }), 1);
+    Outcome {
+        violations: v,
+        ev_hash: all.world.ev_hash,
+        ev_count,
+        poll_hash: all.poll_hash,
+        polls,
+        sim_ns,
+        stats,
+        nontrivial: relayed > 0,
+        case_hash: all.poll_hash ^ plan_shape_hash(plan),
+        probes,
+        panics,
+        extra_evaluations: plan.flows.len() as u64,
+        extra_cases,
+    }
+}
+
+/// Run only flow `ix` of the plan (the others keep their slots but are never started).
+async fn run_single(plan: &Plan, ix: usize) -> TcpRun {
+    let mut p = plan.clone();
+    // flows that never start would keep the driver waiting: mark them so that the driver ignores them
+    for (j, f) in p.flows.iter_mut().enumerate() {
+        if j != ix {
+            f.target_fault = Some("skip".to_owned());
+        }
+    }
+    run_tcp_system(&p, true).await
 }
